@@ -170,12 +170,47 @@ pub fn child_shard(shard: usize, nshards: usize, upto: Option<usize>, refs_file:
 }
 
 fn spawn_self(args: &[String]) -> Result<String, String> {
+    // A child that does not come back (a call of the implementation that loops) must not hang the check:
+    // it is killed after a generous limit and reported as a machinery failure (runaway calls are C03's subject).
+    use std::io::Read;
     let exe = crate::run::child_exe();
-    let out = Command::new(exe).args(args).output().map_err(|e| e.to_string())?;
-    if !out.status.success() {
-        return Err(format!("child {:?} exited with {:?}: {}", args, out.status, String::from_utf8_lossy(&out.stderr).chars().take(200).collect::<String>()));
+    let limit_s: u64 = if args[0] == "--c12-ref" { 120 } else { 3600 };
+    let mut child = Command::new(exe)
+        .args(args)
+        .stdout(std::process::Stdio::piped())
+        .stderr(std::process::Stdio::piped())
+        .spawn()
+        .map_err(|e| e.to_string())?;
+    let (mut so, mut se) = (child.stdout.take().unwrap(), child.stderr.take().unwrap());
+    let ho = std::thread::spawn(move || {
+        let mut v = vec![];
+        let _ = so.read_to_end(&mut v);
+        v
+    });
+    let he = std::thread::spawn(move || {
+        let mut v = vec![];
+        let _ = se.read_to_end(&mut v);
+        v
+    });
+    let t0 = std::time::Instant::now();
+    let status = loop {
+        match child.try_wait().map_err(|e| e.to_string())? {
+            Some(st) => break st,
+            None => {
+                if t0.elapsed().as_secs() > limit_s {
+                    let _ = child.kill();
+                    let _ = child.wait();
+                    return Err(format!("child {:?} did not finish within {limit_s} s and was killed (a call of the implementation that does not return is the subject of C03)", args));
+                }
+                std::thread::sleep(std::time::Duration::from_millis(5));
+            }
+        }
+    };
+    let (out, err) = (ho.join().unwrap(), he.join().unwrap());
+    if !status.success() {
+        return Err(format!("child {:?} exited with {:?}: {}", args, status, String::from_utf8_lossy(&err).chars().take(200).collect::<String>()));
     }
-    Ok(String::from_utf8_lossy(&out.stdout).to_string())
+    Ok(String::from_utf8_lossy(&out).to_string())
 }
 
 fn refs_path() -> String {
